@@ -76,6 +76,19 @@ func c16Program() *hs.Program {
 				hs.LetS("ob", &hs.ObjLit{Fields: []hs.ObjField{{Name: "a", X: hs.I(1)}}}), hs.ES(hs.Asg("+=", hs.Mem(hs.V("ob"), "a"), hs.V("n"))),
 				hs.LetS("nested", hs.List(hs.List(hs.I(0)))), hs.ES(hs.MCall(hs.Idx(hs.V("nested"), hs.I(0)), "push", hs.V("n"))),
 			), hs.P("n", intT)),
+			// `continue` out of a catch block inside a loop inside a try: the handlers installed when the
+			// call returns are those it was entered with, whichever arguments made the catch block run
+			hs.Fn("skipodd", intT, hs.Blk(hs.V("total"),
+				hs.LetS("total", hs.I(0)),
+				hs.ES(&hs.Try{Body: hs.Blk(nil,
+					&hs.For{Var: "i", Iter: &hs.RangeLit{From: hs.I(0), To: hs.V("n")}, Body: hs.Blk(nil,
+						hs.ES(&hs.Try{Body: hs.Blk(nil,
+							hs.ES(&hs.If{Cond: hs.Bin("==", hs.Bin("%", hs.V("i"), hs.I(2)), hs.I(1)), Then: hs.Blk(nil, hs.ES(hs.CallN("throw", hs.S("odd"))))}),
+							hs.ES(hs.Asg("+=", hs.V("total"), hs.Bin("+", hs.V("i"), hs.I(1))))),
+							Var: "e", Catch: hs.Blk(nil, &hs.Continue{})}))},
+					hs.ES(hs.CallN("throw", hs.S("after")))),
+					Var: "outer", Catch: hs.Blk(nil, hs.ES(hs.Asg("+=", hs.V("total"), hs.I(100))))}),
+			), hs.P("n", intT)),
 			// an exception raised and caught in the same frame while operands are pending inside and
 			// outside the try: 100 + (try { 10 + <throws> } catch { 7 }) == 107
 			hs.Fn("caught", intT, hs.Blk(hs.Bin("+", hs.I(100), &hs.Try{
@@ -102,7 +115,7 @@ func (c hostCall) String() string {
 var c16Alphabet = []hostCall{
 	{"sub", []int64{1, 0}}, {"sub", []int64{0, 1}}, {"inc", nil}, {"get", nil}, {"early", []int64{0}}, {"early", []int64{2}},
 	{"boom", nil}, {"viacallee", nil}, {"deep", []int64{3}}, {"obj", nil}, {"caught", nil}, {"launch", nil}, {"getdone", nil},
-	{"firstover", []int64{15}}, {"firstover", []int64{5}}, {"grow", nil}, {"fresh", []int64{1}}, {"fresh", []int64{2}},
+	{"firstover", []int64{15}}, {"firstover", []int64{5}}, {"grow", nil}, {"fresh", []int64{1}}, {"fresh", []int64{2}}, {"skipodd", []int64{1}}, {"skipodd", []int64{3}},
 }
 
 var sp = herrors.Span{}
@@ -115,7 +128,7 @@ func c16Signature(fn string) runtime.FunctionInvocationSignature {
 	switch fn {
 	case "sub":
 		return runtime.FunctionInvocationSignature{Params: []runtime.FunctionInvocationSignatureParam{param("a"), param("b")}, ReturnType: intT}
-	case "early", "deep", "firstover", "fresh":
+	case "early", "deep", "firstover", "fresh", "skipodd":
 		return runtime.FunctionInvocationSignature{Params: []runtime.FunctionInvocationSignatureParam{param("n")}, ReturnType: intT}
 	case "obj":
 		return runtime.FunctionInvocationSignature{ReturnType: ast.NewObjectType([]ast.ObjectTypeField{
